@@ -1059,7 +1059,53 @@ int CBigComplexLinProb::KludgeSolve(int flag)
 // Calls PCGSQStart to do a small number of iterations,
 // moving the starting point for PBCG away from the
 // pathological starting points that can sometimes crop up.
+#ifdef XFEMM_VERIF
+// Verification hooks (guarded), see spars.cpp: XFEMM_VERIF_DUMPSYS / XFEMM_VERIF_SOLVELOG
+#include <cstring>
+#include <stdint.h>
+namespace {
+unsigned long long xfemmVerifCBits(double d) { uint64_t u; memcpy(&u,&d,8); return (unsigned long long)u; }
+void xfemmVerifDumpComplexSystem(CBigComplexLinProb &L)
+{
+    const char *fn = getenv("XFEMM_VERIF_DUMPSYS");
+    if (!fn) return;
+    FILE *fp = fopen(fn,"at");
+    if (!fp) return;
+    fprintf(fp,"SYS complex %i %i newton=%i\n", L.n, L.bdw, L.bNewton);
+    for (int i=0; i<L.n; i++)
+        for (CComplexEntry *e=L.M[i]; e!=NULL; e=e->next)
+            fprintf(fp,"E %i %i x%016llX x%016llX\n", i, e->c, xfemmVerifCBits(e->x.re), xfemmVerifCBits(e->x.im));
+    for (int i=0; i<L.n; i++)
+        fprintf(fp,"B %i x%016llX x%016llX\n", i, xfemmVerifCBits(L.b[i].re), xfemmVerifCBits(L.b[i].im));
+    fprintf(fp,"END\n");
+    fclose(fp);
+}
+void xfemmVerifLogComplexResidual(CBigComplexLinProb &L, int rc)
+{
+    const char *fn = getenv("XFEMM_VERIF_SOLVELOG");
+    if (!fn || L.bNewton) return;
+    CComplex *Y = (CComplex *)calloc(L.n,sizeof(CComplex));
+    L.MultA(L.V,Y);
+    double rr=0, bb=0;
+    for (int i=0; i<L.n; i++) { CComplex d=L.b[i]-Y[i]; rr+=d.re*d.re+d.im*d.im; bb+=L.b[i].re*L.b[i].re+L.b[i].im*L.b[i].im; }
+    free(Y);
+    FILE *fp = fopen(fn,"at");
+    if (!fp) return;
+    fprintf(fp,"SOLVE complex n=%i precision=%.17g relres=%.17g rc=%i\n", L.n, L.Precision, (bb>0)? sqrt(rr/bb) : sqrt(rr), rc);
+    fclose(fp);
+}
+}
 int CBigComplexLinProb::PBCGSolveMod(int flag,bool verbose)
+{
+    xfemmVerifDumpComplexSystem(*this);
+    int rc = PBCGSolveModImpl(flag,verbose);
+    xfemmVerifLogComplexResidual(*this, rc);
+    return rc;
+}
+int CBigComplexLinProb::PBCGSolveModImpl(int flag,bool verbose)
+#else
+int CBigComplexLinProb::PBCGSolveMod(int flag,bool verbose)
+#endif
 {
     // if this is a N-R iteration, call the appropriate solver
     if (bNewton)
